@@ -33,6 +33,10 @@ pub fn nl_with_margin(lat: f64) -> (u32, f64) {
     let x = 1.0 - (1.0 - (std::f64::consts::PI / (2.0 * NZ)).cos()) / (c * c);
     let v = 2.0 * std::f64::consts::PI / x.acos();
     let f = v.floor();
+    if f >= 59.0 {
+        // the formula tends to 60 at the equator; NL is 59 from the equator to the first transition
+        return (59, v - 59.0);
+    }
     let margin = (v - f).min(f + 1.0 - v);
     (f as u32, margin)
 }
